@@ -131,6 +131,7 @@ INVARIANT NormalizeModel
                     files.append(f)
                     jobs[v].append(("encode.corpus_to_file", {"files": ch, "path": f, "optimize": opt}))
             srcs = [{"id": f"sn:{i}", "src": s, "mode": m} for i, (m, s) in enumerate(df.SNIPPETS)]
+            srcs += [{"id": f"sh:{i}", "src": s, "mode": m, "shift_defs": 40} for i, (m, s) in enumerate(df.SNIPPETS) if m == "exec"]
             srcs += [{"id": f"pr:{i}", "src": p["src"]} for i, p in enumerate(programs[:: max(1, len(programs) // 40)])]
             k += 1
             f = str(wd / f"src-{v}-{k}.ndjson")
